@@ -533,8 +533,20 @@ func parseSpecFile(file string, lines []string, lineNos []int) (sf *SpecFile, er
 			sf.Funcs = append(sf.Funcs, lx.parseSpecFunc())
 		case "ghost":
 			lx.next()
+			if lx.isId("global") {
+				// ghost global <name> : <type>  - a ghost package-level variable
+				lx.next()
+				p := lx.pos()
+				raw := lx.restOfLine()
+				ci := strings.LastIndex(raw, ":")
+				if ci < 0 {
+					lx.fail("ghost global syntax: ghost global name : type")
+				}
+				sf.Ghosts = append(sf.Ghosts, &GhostField{P: p, Owner: "", Name: raw[:ci], Type: raw[ci+1:]})
+				break
+			}
 			if !lx.isId("field") {
-				lx.fail("expected 'field'")
+				lx.fail("expected 'field' or 'global'")
 			}
 			lx.next()
 			p := lx.pos()
@@ -927,7 +939,7 @@ func (lx *lexer) parseUnary() Expr {
 	return lx.parsePostfix(lx.parsePrimary())
 }
 
-var rawArgBuiltins = map[string]int{"is": 1, "as": 1, "funcid": 0, "typeid": 0, "zero": 0, "box": 1, "unbox": 1, "mk": 0, "ptr": 1, "empty": 0}
+var rawArgBuiltins = map[string]int{"is": 1, "as": 1, "funcid": 0, "typeid": 0, "zero": 0, "box": 1, "unbox": 1, "mk": 0, "ptr": 1, "empty": 0, "implements": 1}
 
 func (lx *lexer) parsePrimary() Expr {
 	p := lx.pos()
